@@ -30,7 +30,9 @@ for P in [a for a in sys.argv[1:] if not a.startswith("--")]:
         rc_t, o_t = sh(f"PYTHONPATH={wt} /venv/bin/python -m pytest -q -p no:cacheprovider tests 2>&1 | tail -1", wt)
         rc1, o1 = sh(f"PYTHONPATH={wt} /venv/bin/python {out}/equiv_{I}.py", wt)
         sh("git checkout -q -- . ; git clean -fdq", wt)
-        same = rc0 == 0 and rc1 == 0 and o0.strip() == o1.strip() and o0.strip() != ""
+        # the digest is the last line; warnings printed before it carry line numbers that a refactor moves
+        last = lambda o: (o.strip().splitlines() or [""])[-1]
+        same = rc0 == 0 and rc1 == 0 and last(o0) == last(o1) and last(o0) != ""
         ok = rc_apply == 0 and "46 passed" in o_t and same
         # all properties on the worktree's sources with the refactor applied on disk, against the same worktree without it
         # (the worktree may be a few fix: commits behind /repo; both sides of the comparison use the same base)
